@@ -5,7 +5,7 @@ use syn::{parse_quote, spanned::Spanned, Expr, Field, FieldsNamed, Path, Result}
 use crate::{
     attr::{Attr, ContainerAttr, FieldAttr, Inflection, Optional, StructAttr},
     deps::Dependencies,
-    utils::{raw_name_to_ts_field, to_ts_ident},
+    utils::{escape_string_content, escaped_string_content, raw_name_to_ts_field, to_ts_ident},
     DerivedTS,
 };
 
@@ -17,8 +17,10 @@ pub(crate) fn named(attr: &StructAttr, ts_name: Expr, fields: &FieldsNamed) -> R
     let mut dependencies = Dependencies::new(crate_rename.clone());
 
     if let Some(tag) = &attr.tag {
+        let tag = escape_string_content(tag);
+        let name = escaped_string_content(&ts_name);
         formatted_fields.push(quote! {
-            format!("\"{}\": \"{}\",", #tag, #ts_name)
+            format!("\"{}\": \"{}\",", #tag, #name)
         });
     }
 
@@ -58,7 +60,14 @@ pub(crate) fn named(attr: &StructAttr, ts_name: Expr, fields: &FieldsNamed) -> R
                         in_comment = false;
                     }
                 } else if in_string {
-                    in_string = c != '"';
+                    match c {
+                        // an escaped character (`\"`) is not the end of the string
+                        '\\' => {
+                            chars.next();
+                        }
+                        '"' => in_string = false,
+                        _ => {}
+                    }
                 } else {
                     match c {
                         '/' if matches!(chars.peek(), Some((_, '*'))) => {
